@@ -1,4 +1,4 @@
-import Cgm.Driver.OpsQuat
+import Cgm.Driver.OpsXform
 /-!
 # Driver: reads op lines on stdin, prints the model's answer per line.
 -/
@@ -14,6 +14,8 @@ def lookupTyped (name : String) : Option Op :=
     | "v1" => opsV1 op | "v2" => opsV2 op | "v3" => opsV3 op | "v4" => opsV4 op
     | "p1" => opsP1 op | "p2" => opsP2 op | "p3" => opsP3 op
     | "m2" => opsM2 op | "m3" => opsM3 op | "m4" => opsM4 op
+    | "dq" => opsDq op | "db3" => opsDb3 op | "db2" => opsDb2 op
+    | "rad" => opsRad op | "deg" => opsDeg op
     | _ => none
   | _ => none
 
@@ -23,6 +25,7 @@ def lookup (name : String) : Option Op :=
   (opsMatSpecial name).orElse fun _ =>
   (opsQuat name).orElse fun _ =>
   (opsBranch name).orElse fun _ =>
+  (opsXformSpecial name).orElse fun _ =>
   lookupTyped name
 
 def runLine (line : String) : String :=
